@@ -54,28 +54,32 @@ MidOK(i) == LET e == T.events[i] IN
 Present(e, c) == ~e.latest[c].absent
 CollisionFree(e) == \A c, d \in DOMAIN e.latest : (c # d /\ T.base[c] # T.base[d] /\ Present(e, c) /\ Present(e, d)) => Claims(e, c) \cap Claims(e, d) = {}
 \* known finding StaleRequeue (a version that was refused on a name conflict is retried later and applied OVER the cluster's latest object): a
-\* cluster is serving exactly the names of an EARLIER version of itself (e.vers[c]: the name sets of its versions since it was created); only the
+\* cluster is serving exactly the names of an EARLIER version of itself (e.vers[c]: the name sets of all versions ever submitted under its name, earlier incarnations included); only the
 \* names such a cluster serves or should serve are excused
 Served(e, c) == {T.base[h] : h \in {x \in DOMAIN e.resolve : e.resolve[x] = T.base[c]}}
 StaleServing(e, c) == Present(e, c) /\ Served(e, c) # Claims(e, c) /\ \E k \in DOMAIN e.vers[c] : Rng(e.vers[c][k]) = Served(e, c)
-StaleHosts(e) == IF "StaleRequeue" \notin Deviations THEN {}
-                 ELSE {h \in DOMAIN e.resolve \cup DOMAIN e.tls : \E c \in DOMAIN e.latest : StaleServing(e, c) /\
-                             \/ T.base[h] \in Served(e, c) \/ Owner(e, h) = T.base[c]
-                             \* ... or of a cluster that is refused because it claims one of the names held by the stale version
-                             \/ \E d \in DOMAIN e.latest : Owner(e, h) = T.base[d] /\ Claims(e, d) \cap Served(e, c) # {}}
+StaleHosts(e) ==
+  IF "StaleRequeue" \notin Deviations THEN {}
+  ELSE LET SC == {c \in DOMAIN e.latest : StaleServing(e, c)}                                   \* (evaluated once per observation)
+           held == UNION {Served(e, c) : c \in SC}
+           \* the clusters excused: those serving a stale version, and those refused because they claim a name held by a stale version
+           ex == {T.base[c] : c \in SC} \cup {T.base[d] : d \in {x \in DOMAIN e.latest : Claims(e, x) \cap held # {}}}
+       IN IF SC = {} THEN {} ELSE {h \in DOMAIN e.resolve \cup DOMAIN e.tls : T.base[h] \in held \/ Owner(e, h) \in ex}
 CollideOK(i) ==
-  LET e == T.events[i] IN
+  LET e == T.events[i]
+      SH == StaleHosts(e) IN
   /\ \A h \in DOMAIN e.resolve :
-        /\ e.resolve[h] # "" => \E c \in DOMAIN e.latest : T.base[c] = e.resolve[h] /\ Present(e, c) /\ T.base[h] \in Rng(e.ever[c])
+        /\ e.resolve[h] # "" => ((\E c \in DOMAIN e.latest : T.base[c] = e.resolve[h] /\ Present(e, c) /\ T.base[h] \in Rng(e.ever[c])) \/ h \in SH)
         /\ ObsBefore(i) # {} =>
               LET p == T.events[Max(ObsBefore(i))] IN
               \A c \in DOMAIN e.latest \cap DOMAIN p.latest :
-                 (Present(e, c) /\ Present(p, c) /\ T.base[h] \in Claims(e, c) /\ T.base[h] \in Claims(p, c) /\ p.resolve[h] = T.base[c]) => (e.resolve[h] = T.base[c] \/ h \in StaleHosts(e))
-  /\ (e.settled /\ CollisionFree(e)) => NamesOKOn(e, (DOMAIN e.resolve \cup DOMAIN e.tls) \ StaleHosts(e))
+                 (Present(e, c) /\ Present(p, c) /\ T.base[h] \in Claims(e, c) /\ T.base[h] \in Claims(p, c) /\ p.resolve[h] = T.base[c]) => (e.resolve[h] = T.base[c] \/ h \in SH)
+  /\ (e.settled /\ CollisionFree(e)) => NamesOKOn(e, (DOMAIN e.resolve \cup DOMAIN e.tls) \ SH)
 Accept == /\ (Ev.k = "obs" /\ ~T.collide) => ((T.judgeNames => NamesOK(Ev)) /\ (T.judgeReload => ReloadOK(Ev)))
           /\ (Ev.k = "obs" /\ T.collide) => CollideOK(l)
           /\ (Ev.k = "mid" /\ T.judgeNames /\ ~T.collide) => MidOK(l)
-Next == l <= Len(T.events) /\ Accept /\ l' = l + 1 /\ tr' = tr
+\* (Accept = TRUE: evaluated as a predicate - as a conjunct of the action TLC would branch on every disjunction inside it)
+Next == l <= Len(T.events) /\ (Accept = TRUE) /\ l' = l + 1 /\ tr' = tr
 Spec == Init /\ [][Next]_vars
 Why == IF Ev.k = "mid" THEN "mid" ELSE IF T.collide THEN "collide" ELSE IF T.judgeNames /\ ~NamesOK(Ev) THEN "names" ELSE "reload"
 Judge == (l <= Len(T.events) /\ ~Accept) => PrintT(<<"REJECT", T.id, l, Why>>)
